@@ -363,6 +363,8 @@ func (r *Renderer) refBV(t *Term) string {
 		return r.def(t, "(fp.roundToIntegral RTN "+a[0]+")")
 	case "ftrunc":
 		return r.def(t, "(fp.roundToIntegral RTZ "+a[0]+")")
+	case "fround":
+		return r.def(t, "(fp.roundToIntegral RNA "+a[0]+")")
 	case "fsqrt":
 		r.FpOps++
 		return r.def(t, "(fp.sqrt RNE "+a[0]+")")
@@ -416,7 +418,7 @@ func floatIntValued(t *Term) bool {
 	switch t.Op {
 	case "const":
 		return t.Sort.Kind == KFloat && t.F == math.Trunc(t.F)
-	case "i2f", "fceil", "ffloor", "ftrunc":
+	case "i2f", "fceil", "ffloor", "ftrunc", "fround":
 		return true
 	case "fadd", "fsub", "fmul", "fmax", "fmin":
 		return floatIntValued(t.Args[0]) && floatIntValued(t.Args[1])
@@ -781,6 +783,9 @@ func (r *Renderer) refReal(t *Term) string {
 		return r.def(t, "(to_real (to_int "+a[0]+"))")
 	case "ftrunc":
 		return r.def(t, "(to_real (trunci "+a[0]+"))")
+	case "fround":
+		// round half away from zero (math.Round)
+		return r.def(t, "(to_real (ite (>= "+a[0]+" 0.0) (to_int (+ "+a[0]+" 0.5)) (- (to_int (+ (- "+a[0]+") 0.5)))))")
 	case "fsqrt":
 		r.FpOps++
 		name := fmt.Sprintf("r%d", t.ID)
